@@ -13,6 +13,7 @@ ENGINES = {
         predict='e1p',
         shards=16,
         timing_sensitive=True,
+        tier_in_focus=True,
         timing_props=[17],
         rule='random configuration trees (1-2 roots, depth <= 3, <= 10 nodes, sync/fanout/async, workers 1-3, buffers 1-3, disabled and '
              'discarding nodes, sync/async error handlers) driven (a) in lockstep through gated scenarios of 5-45 generator intents '
@@ -78,12 +79,12 @@ _MAN = {
 # observable components (Judge/E1.v): 1 context tree, 2 channel lengths, 3 calls at the gate, 4 recv/proc/filt/fail counters,
 # 5 discarded counter, 6 Shutdown begun/ended, 7 Execute returned, 8 source state, 9 async in flight, 10 shape
 PROPS = {
-    'C01': _p(160, 4000, [1, 2, 3, 9, 10]),
-    'C02': _p(160, 4000, [1, 2, 3, 9, 10]),
-    'C03': _p(160, 4000, [2, 3, 6, 7, 9, 10]),
-    'C04': _p(160, 4000, [2, 3, 5, 10]),
-    'C05': _p(160, 4000, [1, 3, 10], race=True, race_n=600),
-    'C16': _p(160, 4000, [4, 5, 10]),
+    'C01': _p(240, 4000, [1, 2, 3, 9, 10]),
+    'C02': _p(240, 4000, [1, 2, 3, 9, 10]),
+    'C03': _p(240, 4000, [2, 3, 6, 7, 9, 10]),
+    'C04': _p(240, 4000, [2, 3, 5, 10]),
+    'C05': _p(240, 4000, [1, 3, 10], race=True, race_n=600),
+    'C16': _p(240, 4000, [4, 5, 10]),
     'C17': _p(64, 1500, [7, 10]),
     'C18': _p(96, 1500, [8, 10]),
 }
